@@ -67,8 +67,8 @@ def r1_inert_handlers(ctx, rule='C09.R1'):
                       '%s: no user code / processing element runs unless the module is active' % short(key), s.where(), [show_atom(a) for a in atoms][:4])
 
 
-def r2_transit_guard(ctx):
-    ctx.set_rule('C09.R2')
+def r2_transit_guard(ctx, rule='C09.R2'):
+    ctx.set_rule(rule)
     f = ctx.anchor(EV + 'MessageExitingConnection::handle_with_sink')
     if not f:
         return
@@ -187,7 +187,17 @@ def r3_shutdown_protocol(ctx):
             detail['time'] = show(tm)[:160]
         ctx.check(ok, 'restart-event', 'a restart event is scheduled iff a restart time was given, at exactly that time, after the reset', f.where_path(path), detail)
     ctx.floor('shutdown paths of buf_process', n, 2)
-    # the flush of buffered events precedes the shutdown handling (events sent in the same handler still go out)
+    flush_before_shutdown(ctx, None)
+
+
+def flush_before_shutdown(ctx, rule):
+    """the flush of buffered events precedes the shutdown handling: events sent in the same handler still go out, and they are scheduled
+    ahead of the restart event of the same instant (shared: C03.R7 emission order, C08.R11 a sent message reaches the chain)"""
+    if rule:
+        ctx.set_rule(rule)
+    f = ctx.anchor('des::net::runtime::ctx::buf_process')
+    if not f:
+        return
     adds = [s for s in f.calls() if s.name == 'des::runtime::Runtime::add_event' and f.loops_containing(s.b)]
     takes = [s for s in f.calls() if s.name == 'std::option::Option::take']
     if adds and takes:
@@ -266,6 +276,18 @@ def r5_reset_order(ctx):
         ctx.check(none, 'shutdown-runtime-unavailable', 'after Rt::shutdown no runtime is handed out until reset', h.where())
 
 
+def _root_is_self(x):
+    while True:
+        x = peel(x)
+        if x[0] in ('field', 'as', 'deref', 'ref') and len(x) > 1 and isinstance(x[1], tuple):
+            x = x[1]
+            continue
+        if x[0] == 'call' and x[2] and str(x[1]).split('::')[-1] in ('deref', 'as_ref', 'borrow'):
+            x = x[2][0]
+            continue
+        return x[0] == 'arg' and (x[1] in (1, 'self') or (len(x) > 2 and x[2] == 'self'))
+
+
 def r6_writers_of_active(ctx):
     ctx.set_rule('C09.R6')
     P = ctx.P
@@ -289,6 +311,18 @@ def r6_writers_of_active(ctx):
                 ctx.check(want is not None and val == ('int', want), 'active-writer:%s' % f.key,
                           'the active flag is written only by the shutdown protocol (false), module_restart (true) and the panic harness (false)', s.where(), show(val) if val else None)
     ctx.floor('writers of the active flag', n, 3)
+    # ... and what every guard reads is that flag of the module itself, nothing else: a module is down exactly from its own shutdown to
+    # its own restart (deriving it from the parent's state as well silences a child that was never shut down)
+    g = ctx.anchor('des::net::module::refs::ModuleRef::is_active')
+    if g:
+        rts = [peel(t) for _, t in ret_trees(g)]
+        def own_flag(t):
+            if t[0] != 'call' or str(t[1]).split('::')[-1] != 'load' or 'atomic' not in str(t[1]).lower() or not t[2]:
+                return False
+            flds = [x for x in walk(t[2][0]) if x[0] == 'field' and x[2] == 'active']
+            return bool(flds) and _root_is_self(flds[0])
+        ctx.check(bool(rts) and all(own_flag(t) for t in rts), 'is-active-reads-own-flag', "ModuleRef::is_active is the module's own active flag", g.where(),
+                  [show(t)[:120] for t in rts][:2])
 
 
 def r8_request_consumers(ctx):
